@@ -17,6 +17,7 @@
 -/
 import Frrs.Analyze
 import Frrs.Extracted
+import Frrs.Proofs.Pipes
 namespace Frrs.C19
 open Frrs Frrs.Pipe
 
@@ -384,5 +385,11 @@ example : (countRefs [b!"refs/heads/m", b!"refs/tags/v", b!"refs/remotes/o/m", b
     { total := 5, heads := 2, tags := 1, remotes := 1, other := 1 } := by decide +kernel
 example : (largestFiles 2 [(b!"o1", 5, [b!"a"]), (b!"o2", 9, [b!"a", b!"b"]), (b!"o3", 1, [b!"c"])]).map (fun f => (f.path, f.size, f.versions)) =
     [(b!"a", 9, 2), (b!"b", 9, 1)] := by decide +kernel   -- equal sizes keep their table order (stable sort)
+
+
+/-- `--analyze` (and `--detect-secrets`) never reach the filter, whatever filtering options stand next to them on the
+    command line (model of `lib.rs run`, Frrs/Pipes.lean `dispatch`) -/
+theorem scan_modes_never_filter (o : Cli.CliOpts) (h : o.detectSecrets = true ∨ o.analyze = true) :
+    Pipes.dispatch o ≠ .filter := Pipes.scan_modes_do_not_filter o h
 
 end Frrs.C19
